@@ -23,6 +23,9 @@ structure ExtField where
   name : String
   ty : TN
   args : List ExtArg
+  /-- the resolver a schema directive of the extension document gives the new field (`extend_schema(…, schema_directives=…)`,
+      `extend type Query { b: String @wrap }`); `none`: the field is built without one -/
+  res : Option Nat := none
   deriving Repr, Inhabited
 
 structure Ext where
@@ -99,7 +102,7 @@ def buildFields (N : List (String × Addr)) : Heap → List ExtField → Heap ×
   | h, f :: fs =>
     let ra := buildArgs N h f.args
     let r := ra.1.alloc (.field { name := f.name, ty := tnRef N f.ty, args := ra.2, desc := none, depr := none,
-                                  res := none, sub := none, py := f.name })
+                                  res := f.res, sub := none, py := f.name })
     let rs := buildFields N r.1 fs
     (rs.1, r.2 :: rs.2)
 
